@@ -4,8 +4,10 @@ import (
 	"encoding/json"
 	"fmt"
 	"net"
+	"path/filepath"
 	"reflect"
 	"strconv"
+	"strings"
 )
 
 // A listen address has to be something the process can listen on at its next start: "host:port"
@@ -53,6 +55,11 @@ func (c *Config) verify() error {
 	if webserverRuns && listenAddressesCollide(c.Proxy.Listen.pending(), c.Webserver.Listen.pending()) {
 		return fmt.Errorf("proxy.listen and webserver.listen name the same address and port (%s, %s)", c.Proxy.Listen.pending(), c.Webserver.Listen.pending())
 	}
+	if c.Cache.Type.pending() == CacheTypeFile && holdsPath(c.Cache.File.Dir.pending(), configPath.Path) {
+		// The file cache empties its directory when it starts: the configuration would be deleted by
+		// the start that loaded it, and the one after that would run on defaults.
+		return fmt.Errorf("cache.file.dir (%s) holds the configuration file", c.Cache.File.Dir.pending())
+	}
 
 	return nil
 }
@@ -72,6 +79,23 @@ func listenAddressesCollide(a, b string) bool {
 	}
 	everywhere := func(h string) bool { return h == "" || h == "0.0.0.0" || h == "::" }
 	return hostA == hostB || everywhere(hostA) || everywhere(hostB)
+}
+
+// Whether the directory dir is, or lies above, the place of path.
+func holdsPath(dir, path string) bool {
+	absDir, err := filepath.Abs(dir)
+	if err != nil {
+		return false
+	}
+	absPath, err := filepath.Abs(path)
+	if err != nil {
+		return false
+	}
+	rel, err := filepath.Rel(absDir, absPath)
+	if err != nil {
+		return false
+	}
+	return rel != ".." && !strings.HasPrefix(rel, ".."+string(filepath.Separator))
 }
 
 // A separate configuration holding what is stored now (command-line overwrites left out) with an
